@@ -106,7 +106,7 @@ let pk_name = function
   | PK_InvalidIndex -> "PK_InvalidIndex" | PK_AssignTarget -> "PK_AssignTarget" | PK_AssignOp -> "PK_AssignOp"
   | PK_AssignValue -> "PK_AssignValue" | PK_InvalidCall -> "PK_InvalidCall" | PK_InvalidPipe -> "PK_InvalidPipe"
   | PK_InvalidIn -> "PK_InvalidIn" | PK_ExpectedIn -> "PK_ExpectedIn" | PK_InvalidNotIn -> "PK_InvalidNotIn"
-  | PK_RangeBrace -> "PK_RangeBrace" | PK_InvalidRange -> "PK_InvalidRange" | PK_SetSyntax -> "PK_SetSyntax"
+  | PK_RangeBrace -> "PK_RangeBrace" | PK_InvalidRange -> "PK_InvalidRange" | PK_SetSyntax -> "PK_SetSyntax" | PK_MapSyntax -> "PK_MapSyntax"
   | PK_InvalidAttr -> "PK_InvalidAttr" | PK_ExpectedIdentAfter -> "PK_ExpectedIdentAfter" | PK_SendChannel -> "PK_SendChannel"
   | PK_SendValue -> "PK_SendValue" | PK_InvalidReceive -> "PK_InvalidReceive" | PK_InvalidReturn -> "PK_InvalidReturn" | PK_InvalidCase -> "PK_InvalidCase" | PK_InvalidElseIf -> "PK_InvalidElseIf"
 
